@@ -329,6 +329,95 @@ impl<T, N: ArrayLength> GenericArrayIter<T, N> {
         (__ret, this)
     }
 
+    // extracted from src/iter.rs:99  `fn fold<B, F>(mut self, init: B, mut f: F) -> B where F: FnMut(B, Self::Item) -> B,`
+    fn fold<B, F: Foreign2<B, T, B>>(self, init: B, f: &mut F) -> (ret: B)
+        requires
+            self.wf(),
+            old(f).log().len() == 0,
+        ensures
+            final(f).log().len() == self.remaining().len(), /*OB:fold.post.once-per-element:C06,C03*/
+            forall|k: int| 0 <= k < self.remaining().len() ==> (#[trigger] final(f).log()[k]).1 == self.remaining()[k], /*OB:fold.post.in-order:C06*/
+            self.remaining().len() == 0 ==> ret == init, /*OB:fold.post.empty-returns-init:C06*/
+            self.remaining().len() > 0 ==> final(f).log()[0].0 == init && ret == final(f).log().last().2, /*OB:fold.post.threads-accumulator:C06*/
+            forall|k: int| 0 < k < self.remaining().len() ==> (#[trigger] final(f).log()[k]).0 == final(f).log()[k - 1].2, /*OB:fold.post.threads-accumulator-step:C06*/
+    {
+        let mut this = self;
+        let ret = {
+            let index_back = this.index_back;
+            let remaining = this.array.range(this.index, index_back);
+            {
+                let ghost rem0 = this.remaining();
+                let ghost i0 = this.index;
+                let ghost b0 = this.index_back;
+                let __cnt = remaining.hi - remaining.lo;
+                let mut acc = init;
+                let mut __k: usize = 0;
+                while __k < __cnt invariant this.wf(), remaining.lo == i0, remaining.hi == b0, __cnt == rem0.len(), i0 + __cnt == b0, __k <= __cnt, this.index == i0 + __k, this.index_back == b0, forall|j: int| 0 <= j < __cnt - __k ==> this.remaining()[j] == rem0[__k + j], f.log().len() == __k, forall|j: int| 0 <= j < __k ==> (#[trigger] f.log()[j]).1 == rem0[j], __k == 0 ==> acc == init, __k > 0 ==> f.log()[0].0 == init && acc == f.log().last().2, forall|j: int| 0 < j < __k ==> (#[trigger] f.log()[j]).0 == f.log()[j - 1].2, decreases __cnt - __k, {
+                    let src = (remaining.lo + __k);
+                    let ghost before = this.remaining();
+                    let value = this.array.take(src);
+                    this.index += 1;
+                    proof {
+                        assert(this.wf()) /*OB:fold.unwind@closure:C04*/;
+                        assert(value == before[0]);
+                        assert(before[0] == rem0[__k + 0]);
+                        assert(value == rem0[__k as int]);
+                        assert(this.remaining() =~= before.drop_first());
+                    }
+                    acc = f.call(acc, value);
+                    __k += 1;
+                }
+                acc
+            }
+        };
+        this.array.forget();
+        ret
+    }
+
+    // extracted from src/iter.rs:175  `fn rfold<B, F>(mut self, init: B, mut f: F) -> B where F: FnMut(B, Self::Item) -> B,`
+    fn rfold<B, F: Foreign2<B, T, B>>(self, init: B, f: &mut F) -> (ret: B)
+        requires
+            self.wf(),
+            old(f).log().len() == 0,
+        ensures
+            final(f).log().len() == self.remaining().len(), /*OB:rfold.post.once-per-element:C06,C03*/
+            forall|k: int| 0 <= k < self.remaining().len() ==> (#[trigger] final(f).log()[k]).1 == self.remaining()[self.remaining().len() - 1 - k], /*OB:rfold.post.in-order:C06*/
+            self.remaining().len() == 0 ==> ret == init, /*OB:rfold.post.empty-returns-init:C06*/
+            self.remaining().len() > 0 ==> final(f).log()[0].0 == init && ret == final(f).log().last().2, /*OB:rfold.post.threads-accumulator:C06*/
+            forall|k: int| 0 < k < self.remaining().len() ==> (#[trigger] final(f).log()[k]).0 == final(f).log()[k - 1].2, /*OB:rfold.post.threads-accumulator-step:C06*/
+    {
+        let mut this = self;
+        let ret = {
+            let index = this.index;
+            let remaining = this.array.range(index, this.index_back);
+            {
+                let ghost rem0 = this.remaining();
+                let ghost i0 = this.index;
+                let ghost b0 = this.index_back;
+                let __cnt = remaining.hi - remaining.lo;
+                let mut acc = init;
+                let mut __k: usize = 0;
+                while __k < __cnt invariant this.wf(), remaining.lo == i0, remaining.hi == b0, __cnt == rem0.len(), i0 + __cnt == b0, __k <= __cnt, this.index == i0, this.index_back == b0 - __k, forall|j: int| 0 <= j < __cnt - __k ==> this.remaining()[j] == rem0[j], f.log().len() == __k, forall|j: int| 0 <= j < __k ==> (#[trigger] f.log()[j]).1 == rem0[rem0.len() - 1 - j], __k == 0 ==> acc == init, __k > 0 ==> f.log()[0].0 == init && acc == f.log().last().2, forall|j: int| 0 < j < __k ==> (#[trigger] f.log()[j]).0 == f.log()[j - 1].2, decreases __cnt - __k, {
+                    let src = (remaining.hi - 1 - __k);
+                    let ghost before = this.remaining();
+                    let value = this.array.take(src);
+                    this.index_back -= 1;
+                    proof {
+                        assert(this.wf()) /*OB:rfold.unwind@closure:C04*/;
+                        assert(value == before[before.len() - 1]);
+                        assert(value == rem0[rem0.len() - 1 - __k]);
+                        assert(this.remaining() =~= before.drop_last());
+                    }
+                    acc = f.call(acc, value);
+                    __k += 1;
+                }
+                acc
+            }
+        };
+        this.array.forget();
+        ret
+    }
+
 }
 
 impl<T: ForeignClone, N: ArrayLength> GenericArrayIter<T, N> {
